@@ -824,9 +824,10 @@ public:
                        const uf_domain_t &inv) override {
     crab::CrabStats::count(domain_name() + ".count.backward_assign");
     crab::ScopedCrabStats __st__(domain_name() + ".backward_assign");
-    if (!is_bottom()) {
-      CRAB_WARN("backward_assign not implemented by ", domain_name());
-    }
+    // No inverse operations are implemented: x can be anything before
+    // the assignment.
+    this->operator-=(x);
+    *this = *this & inv;
   }
 
   void backward_apply(arith_operation_t op, const variable_t &x,
@@ -834,9 +835,10 @@ public:
                       const uf_domain_t &inv) override {
     crab::CrabStats::count(domain_name() + ".count.backward_apply");
     crab::ScopedCrabStats __st__(domain_name() + ".backward_apply");
-    if (!is_bottom()) {
-      CRAB_WARN("backward_apply not implemented by ", domain_name());
-    }
+    // No inverse operations are implemented: x can be anything before
+    // the assignment.
+    this->operator-=(x);
+    *this = *this & inv;
   }
 
   void backward_apply(arith_operation_t op, const variable_t &x,
@@ -844,9 +846,10 @@ public:
                       const uf_domain_t &inv) override {
     crab::CrabStats::count(domain_name() + ".count.backward_apply");
     crab::ScopedCrabStats __st__(domain_name() + ".backward_apply");
-    if (!is_bottom()) {
-      CRAB_WARN("backward_apply not implemented by ", domain_name());
-    }
+    // No inverse operations are implemented: x can be anything before
+    // the assignment.
+    this->operator-=(x);
+    *this = *this & inv;
   }
 
   void operator+=(const linear_constraint_t &cst) {
